@@ -12,6 +12,8 @@ package main
 // op 4 table [kw] [asc]      -> FindBoardAutoCompleteStartIdx
 // op 5 table [k asc]         -> by-name listing walk through bbs.LoadGeneralBoards: pages, visited positions of BSorted[by name]
 // op 6 table [kw] [k asc]    -> auto-complete listing walk through bbs.LoadAutoCompleteBoards: pages, visited positions
+// op 7 table [k asc]         -> by-class listing walk through bbs.LoadGeneralBoards(BSORT_BY_CLASS): pages, visited positions of
+//                               BSorted[by class]. A walk (op 5, 6, 7) that is not over after 2n+3 pages is status 2.
 
 import (
 	"bytes"
@@ -84,6 +86,17 @@ func init() {
 		return -99
 	}
 
+	// position (1-based) in BSorted[by class] of the board with that name (names are distinct as byte strings)
+	posByClass := func(name string) int64 {
+		for i := 0; i < nBoards; i++ {
+			b := cache.Shm.Shm.BSorted[ptttype.BSORT_BY_CLASS][i]
+			if types.CstrToString(cache.Shm.Shm.BCache[b].Brdname[:]) == name {
+				return int64(i + 1)
+			}
+		}
+		return -99
+	}
+
 	boardID := func(toks []string) *ptttype.BoardID_t {
 		id := &ptttype.BoardID_t{}
 		copy(id[:], ab(toks))
@@ -130,7 +143,7 @@ func init() {
 					return errs(1)
 				}
 				return ok(oi(int64(idx)))
-			case 5, 6:
+			case 5, 6, 7:
 				var kw string
 				p := args[3]
 				if op == 6 {
@@ -147,6 +160,8 @@ func init() {
 					var err error
 					if op == 5 {
 						ss, next, err = bbs.LoadGeneralBoards(bbs.UUserID("SYSOP"), cursor, k, nil, nil, asc, ptttype.BSORT_BY_NAME)
+					} else if op == 7 {
+						ss, next, err = bbs.LoadGeneralBoards(bbs.UUserID("SYSOP"), cursor, k, nil, nil, asc, ptttype.BSORT_BY_CLASS)
 					} else {
 						ss, next, err = bbs.LoadAutoCompleteBoards(bbs.UUserID("SYSOP"), cursor, k, kw, asc)
 					}
@@ -155,7 +170,11 @@ func init() {
 					}
 					pages++
 					for _, s := range ss {
-						visited = append(visited, oi(posByName(s.Brdname)))
+						if op == 7 {
+							visited = append(visited, oi(posByClass(s.Brdname)))
+						} else {
+							visited = append(visited, oi(posByName(s.Brdname)))
+						}
 					}
 					if next == "" {
 						return append([]string{"0", oi(pages)}, visited...)
